@@ -92,6 +92,66 @@ def flat_defaults(census, cname: str, pre: str = "") -> Dict[str, Any]:
     return out
 
 
+def _normalisation_by_interpretation(chk, r3, base):
+    """The before-validators of BaseSettings are interpreted from their AST on every key / value spelling class (lower, UPPER, Mixed,
+    padded with blank / tab / newline on either side; alone, next to other keys, nested one and two levels down): whatever the
+    spelling, the dictionary handed on to pydantic must carry the lower-cased, stripped key (an unnormalised key is silently ignored by
+    pydantic's extra='ignore', so the setting - developer-only or not, valid or not - is dropped instead of being checked)."""
+    from engine.absint import ModuleEnv
+    from engine.pyinterp import Function, Interp, InterpRaised, Unsupported
+    model_before = [m for m in base.methods.values() if any("model_validator" in d and "before" in d for d in m.decorators)]
+    field_before = [m for m in base.methods.values() if any("field_validator" in d and "before" in d and ("'*'" in d or '"*"' in d) for d in m.decorators)]
+    r3.require(bool(model_before), f"{base.key}|key-normaliser-registered", base.module.rel, "BaseSettings has no before-model-validator left: keys are no longer lower-cased / stripped")
+    r3.require(bool(field_before), f"{base.key}|value-normaliser-registered", base.module.rel, "BaseSettings has no before-field-validator on '*' left: values are no longer lower-cased / stripped")
+    spellings = ["alpha_selection", "ALPHA_SELECTION", "Alpha_Selection", " alpha_selection", "alpha_selection ", "alpha_selection\t", "\nalpha_selection", " ALPHA_SELECTION  ", "\tAlpha_selection\n"]
+
+    def norm(x):
+        return {(k.lower().strip() if isinstance(k, str) else k): norm(v) for k, v in x.items()} if isinstance(x, dict) else x
+    cases = []
+    for sp in spellings:
+        cases += [{sp: 1}, {"developer_mode": False, sp: 1}, {sp: 1, "SEASON": {"January": "winter"}}, {"split_selection": {sp: 1}}, {"split_selection": {"criteria": "bic", sp: 1}},
+                  {"a": {"b": {sp: 1}}}, {sp: {"x ": 1}}]
+    cases += [{}, {"alpha_selection": 2}, {1: "x"}, {"a": [1, {"B ": 2}]}]
+    n_bad = []
+    for m in model_before:
+        for c in cases:
+            it = Interp(step_limit=50_000)
+            try:
+                import copy as _copy
+                got = Function(m.node, ModuleEnv(chk.repo, m.module, it, {}), it)(ClassRef_("BaseSettings"), _copy.deepcopy(c))
+            except InterpRaised as e:
+                got = f"raises {e.exc_name}"
+            except Unsupported as e:
+                raise AnalysisError(f"{m.key}: uses an operation outside the modelled subset: {e}")
+            want = norm(c)
+            if got != want:
+                n_bad.append((c, got))
+        r3.require(not n_bad, f"{m.key}|keys-normalised", m.where(),
+                   f"{m.qualname}: for {len(n_bad)} of {len(cases)} key spellings the dictionary handed to pydantic does not carry the lower-cased, stripped keys; e.g. {n_bad[:2]} "
+                   "(pydantic ignores unknown keys, so such a setting is silently dropped instead of checked)", sample={"cases": len(cases)})
+    vals = ["rmse", "RMSE", " rmse", "rmse ", "Rmse\t", "\nRMSE ", 3, None, 1.5, True]
+    for m in field_before:
+        vbad = []
+        for v in vals:
+            it = Interp(step_limit=10_000)
+            try:
+                got = Function(m.node, ModuleEnv(chk.repo, m.module, it, {}), it)(ClassRef_("BaseSettings"), v)
+            except InterpRaised as e:
+                got = f"raises {e.exc_name}"
+            except Unsupported as e:
+                raise AnalysisError(f"{m.key}: uses an operation outside the modelled subset: {e}")
+            want = v.lower().strip() if isinstance(v, str) else v
+            if got != want or type(got) is not type(want):
+                vbad.append((v, got))
+        r3.require(not vbad, f"{m.key}|values-normalised", m.where(), f"{m.qualname}: string values must come out lower-cased and stripped, everything else unchanged; deviations {vbad[:3]}",
+                   sample={"values": len(vals)})
+
+
+def ClassRef_(name):
+    from engine.absint import ClassRef
+    return ClassRef(name)
+
+
 def run(chk):
     chk.explanation = (
         "Every field declaration of the daily / legacy / billing / hourly / optimiser settings trees is read with inheritance resolved "
@@ -252,9 +312,19 @@ def run(chk):
                 self.default = default
                 self.default_factory = factory
 
+        class _SettingsClass(ClassRef):
+            """type(settings): the class also exposes model_fields (pydantic >= 2.11 deprecates instance access)."""
+
+            def __init__(self, name, fields):
+                super().__init__(name)
+                self.model_fields = fields
+
+            def _abs_is(self, o):   # classes are singletons: `type(x) is C` compares by name here
+                return isinstance(o, ClassRef) and o.name == self.name
+
         def _obj(fields, values, cls_ref):
             o = AbsObj({"BaseSettings", cls_ref.name}, model_fields=fields)
-            o._abs_type = cls_ref
+            o._abs_type = _SettingsClass(cls_ref.name, fields)
             for k_, v_ in values.items():
                 setattr(o, k_, v_)
             return o
@@ -301,11 +371,24 @@ def run(chk):
             o = _obj({"a": _Field(False, 1, None), "b": _Field(True, 1, None)}, {"a": 1, "b": 2}, ClassRef("Top"))
             if _run(o) != ("raises", "ValueError"):
                 bad.append(({"fields": 2}, "a changed developer-only second field passes: the checker no longer iterates over every model field"))
+            # ... nor at the first nested block: a clean nested object, then a changed developer-only field (and the other way round)
+            for first_nested in (True, False):
+                for dev_nested in (False, True):
+                    rows += 1
+                    inner = _obj({"g": _Field(True, 1, None)}, {"g": 1}, DECL)
+                    fs = [("n", _Field(dev_nested, None, DECL), inner), ("b", _Field(True, 1, None), 2)]
+                    if not first_nested:
+                        fs.reverse()
+                    o = _obj({k_: f_ for k_, f_, _v in fs}, {k_: v_ for k_, _f, v_ in fs}, ClassRef("Top"))
+                    if _run(o) != ("raises", "ValueError"):
+                        bad.append(({"fields": 2, "nested_first": first_nested}, "a changed developer-only field declared next to a (clean) nested settings block passes: the walk over the fields ends at the nested block"))
         except Unsupported as e:
             raise AnalysisError(f"{chkfn.key}: the recursive checker uses an operation outside the modelled subset: {e}")
         pin_bad = [b_ for b_ in bad if b_[0].get("nested") and b_[0].get("wrongclass") and b_[0].get("developer") and b_[0].get("hasfactory") and not b_[0].get("inner_changed")]
         rec_bad = [b_ for b_ in bad if b_[0].get("nested") and b_[0].get("inner_changed") and "recurse" in b_[1]]
         it_bad = [b_ for b_ in bad if b_[0].get("fields") == 2]
+        if any("nested_first" in b_[0] for b_ in it_bad):
+            it_bad = [b_ for b_ in it_bad if "nested_first" in b_[0]] + [b_ for b_ in it_bad if "nested_first" not in b_[0]]
         other_bad = [b_ for b_ in bad if b_ not in pin_bad and b_ not in rec_bad and b_ not in it_bad]
         r2.require(not other_bad, f"{chkfn.key}|truth-table", chkfn.where(),
                    f"recursive checker must raise iff (not nested) and developer-only and value != default (nested values: iff of another class than the declared factory, or the nested object itself is rejected); deviations: {other_bad[:3]}",
@@ -354,6 +437,7 @@ def run(chk):
                 r3.require("frozen=False" not in t and "str_to_lower=False" not in t, f"{k.key}|model_config-override", k.module.rel, f"{k.name} overrides model_config: {t}")
     kv = [m for m in base.methods.values() if any("validator" in d and "before" in d for d in m.decorators)]
     r3.require(len(kv) >= 2, f"{base.key}|normalising-validators", base.module.rel, "BaseSettings must keep its key-lowercasing and value-lowercasing before-validators")
+    _normalisation_by_interpretation(chk, r3, base)
 
     # ------------------------------------------------------------------ R14.4
     want = {"opendsm.eemeter.models.daily.model:DailyModel._fit_components", "opendsm.eemeter.models.daily.model:DailyModel._final_fit",
